@@ -7,5 +7,7 @@ CONSTANTS
   MaxRules = 2
   FixedRules = {}
   EdbChoices <- E1Edbs
+  Randomized = FALSE
+  Keep <- KeepAll
 INVARIANT Emit
 CHECK_DEADLOCK FALSE
